@@ -61,7 +61,10 @@ pub fn run_c08(chk: &Check, tier: Tier) {
     chk.assume("one channel at a time with the other 15 idle (isolation is C15)");
     let channels: Vec<u8> = if tier.thorough() { (0..16).collect() } else { vec![0, 9, 15] };
     for &c in &channels {
-        let sys = c08_system("C08", c, Report { oracle: true, ..Default::default() }, &all_values());
+        let mut sys = c08_system("C08", c, Report { oracle: true, ..Default::default() }, &all_values());
+        if c == channels[0] {
+            sys.storms = vec![(256, false), (65536, false), (65536, true)];
+        }
         let out = xs::explore(&sys, &Limits::default());
         engine::record(chk, &sys, &out, None);
         if out.found.is_empty() && out.nodes.len() != 4097 && out.exhaustive {
